@@ -44,20 +44,21 @@ S9 = ["s%d" % i for i in range(9)]
 PROPERTIES = {
     "C01": {
         "level": "proof",
-        "verus_units": ["arith_widen", "fracops"],
-        "kani": _mods("arith8", ["h_i8", "h_u8"], ["mul_overflow_all_fracs", "div_overflow_all_fracs"]),
+        "verus_units": ["arith_widen", "arith128", "fracops"],
+        "kani": _mods("arith8", ["h_i8", "h_u8"], ["mul_overflow_all_fracs", "div_overflow_all_fracs"])
+                + ["widediv::div_rem_from_u8", "widediv::div_rem_from_i8", "widediv::div_rem_from_i8_min_by_minus_one"],
         "explanation": "mul_overflow/div_overflow of the 8..64-bit primitives verified (Verus) against R_mul/R_div with symbolic frac_nbits; "
                        "Kani twins on the 8-bit instantiation",
-        "not_covered": ["128-bit fallback multiply and wide division (arith.rs FallbackHelper, wide_div.rs): not yet under contract"],
+        "not_covered": ["wide_div.rs (div_half / normalize / div_rem_from): contract assumed in unit arith128; verified by Kani on the 8-bit instantiation of the macro bodies only"],
     },
     "C02": {
         "level": "proof",
-        "verus_units": ["arith_widen", "nofrac", "fracops"],
+        "verus_units": ["arith_widen", "arith128", "nofrac", "fracops"],
         "kani": _mods("arith8", ["i4f4", "i0f8", "u4f4", "u0f8"], FORMS) + ["arith8::abs_forms_i8"],
         "kani_thorough": _mods("arith8", ["i8f0", "u8f0"], FORMS),
         "explanation": "neg/abs/add/sub/mul_int/div_int in the four overflow forms verified for all ten families (Verus, unit nofrac); "
                        "mul/div helpers (unit arith_widen); the mul/div forms of fixed_frac! are confirmed by Kani twins on 8-bit layouts",
-        "not_covered": ["the 128-bit mul_overflow/div_overflow helper contract is assumed in unit fracops and not yet proved (see C01)"],
+        "not_covered": ["WideDivRem::div_rem_from contract (wide_div.rs) is assumed by the 128-bit division; Kani verifies the 8-bit instantiation of the same macro bodies"],
     },
     "C03": {
         "level": "proof",
@@ -74,6 +75,7 @@ PROPERTIES = {
     },
     "C04": {
         "level": "proof",
+        "verus_units": ["convert"],
         "kani": TFH + _mods("conv8", ["s0", "s4", "s8"], ["i8_to_i8", "i8_to_u8", "u8_to_i8", "u8_to_u8"]) + CONVINT + CONVX,
         "kani_thorough": _mods("conv8", [x for x in S9 if x not in ("s0", "s4", "s8")], ["i8_to_i8", "i8_to_u8", "u8_to_i8", "u8_to_u8"]),
         "explanation": "to_fixed_helper under contract for all layouts; FromFixed/ToFixed policies verified on all pairs of 8-bit layouts, "
@@ -113,10 +115,26 @@ PROPERTIES = {
                        "max_encoded_len == width/8, decode round trip consuming the input, every shorter input fails, byte views inverse; all bit patterns",
         "not_covered": ["Wrapping<F> has no Encode/Decode impl in this crate; serde is feature-gated and not built"],
     },
+    "C11": {
+        "level": "proof",
+        "verus_units": ["arith_widen", "arith128", "nofrac", "fracops", "round"],
+        "kani": [{"harness": h, "classes": ["panic"]} for h in
+                 _mods("arith8", ["i4f4", "i0f8", "u4f4", "u0f8"], FORMS) + ["arith8::abs_forms_i8"] + TFH
+                 + ["float::check_to_f32", "float::check_to_f64", "float::check_kind_f32", "float::check_kind_f64"]
+                 + _mods("rem8", ["i4f4", "i1f7", "u4f4"], REM) + CONVX + ["conv8::i8f_i8", "conv8::u8f_u16", "conv8::s4::i8_to_u8", "conv8::s4::u8_to_i8"]
+                 + _mods("wrap8", ["i4f4", "u0f8"], ["arith_ops", "bit_and_shift_ops", "rounding_and_conversion"])
+                 + ["transc::exp_i9f23", "transc::sin_i9f23"]],
+        "explanation": "Profiles differ only through overflow / shift-amount checks and debug assertions.  Both back ends verify under the "
+                       "checking semantics on the dev-profile expansion: every such site inside a function under contract is a panic-class "
+                       "obligation; when all are discharged under the function's precondition no check can fire, so the unchecked build "
+                       "computes the same value.  This check owns ONLY the panic-class obligations of the listed units / harnesses.",
+        "scan_uncovered": True,
+    },
     "C18": {
         "level": "proof",
         "kani": _mods("wrap8", ["i4f4", "i0f8", "u4f4", "u0f8"], ["arith_ops", "bit_and_shift_ops", "rounding_and_conversion"])
-                + ["wrap8::signed_only_ops", "wrap8::sum_product_fold"],
+                + ["wrap8::i4f4::ref_and_assign_forms", "wrap8::u4f4::ref_and_assign_forms"]
+                + ["wrap8::signed_only_ops", "wrap8::fold_i4f4", "wrap8::fold_i1f7", "wrap8::fold_i0f8", "wrap8::fold_u0f8", "wrap8::fold_u4f4"],
         "kani_thorough": _mods("wrap8", ["i8f0", "u8f0"], ["arith_ops", "bit_and_shift_ops", "rounding_and_conversion"]),
         "explanation": "every Wrapping<F> operator and method on 8-bit layouts equals the exact result modulo 2^8 and the wrapping_* form of F",
         "bounded_parts": ["Wrapping<F> is generic; harnesses instantiate F at six 8-bit layouts; sum/product over at most 3 elements"],
